@@ -45,7 +45,7 @@ Fixpoint rs_lt_month (fuel : nat) (leap day month : Z) : option (Z * Z) :=
            else Some (day, month)
   end.
 
-Definition rs_local_time (unix_time utc_offset us : Z) : option (Z * Z * Z * Z * Z * Z * Z) :=
+Definition rs_lt_prefix (unix_time utc_offset : Z) : Z * Z :=
   let year := RS_EPOCH_YEAR in
   let seconds := unix_time in
   let '(seconds, year) :=
@@ -54,7 +54,9 @@ Definition rs_local_time (unix_time utc_offset us : Z) : option (Z * Z * Z * Z *
   let seconds := seconds + utc_offset in
   let year := year + 400 * Z.quot seconds RS_SECS_PER_400_YEARS in
   let seconds := Z.rem seconds RS_SECS_PER_400_YEARS in
-  let '(seconds, year) := if seconds <? 0 then (seconds + RS_SECS_PER_400_YEARS, year - 400) else (seconds, year) in
+  if seconds <? 0 then (seconds + RS_SECS_PER_400_YEARS, year - 400) else (seconds, year).
+
+Definition rs_lt_tail (seconds year us : Z) : option (Z * Z * Z * Z * Z * Z * Z) :=
   let leap := 1 in
   match rs_lt_loop 4 RS_SECS_PER_100_YEARS 100 0 seconds year leap (tidx RS_SECS_PER_100_YEARS leap) with
   | None => None
@@ -78,3 +80,6 @@ Definition rs_local_time (unix_time utc_offset us : Z) : option (Z * Z * Z * Z *
       Some (year, month, day, hour, minute, second, us)
     end
   end end end.
+
+Definition rs_local_time (unix_time utc_offset us : Z) : option (Z * Z * Z * Z * Z * Z * Z) :=
+  let '(seconds, year) := rs_lt_prefix unix_time utc_offset in rs_lt_tail seconds year us.
